@@ -147,6 +147,20 @@ def step (st : St) (j : Json) : St × List String :=
     -- the revocation's own verification is C11's subject; here the registered outcome is an input
     if jBool j "registered" then ({ st with revoked := jStr j "id" :: st.revoked }, ["revocation:ok"])
     else (st, ["revocation:" ++ "rejected"])
+  | "issue" =>
+    -- the real issuer.Issue vs the model's `issue` (signing is a toy function here: only the outcome class is compared)
+    match j.getObjVal? "template" with
+    | .ok .null => (st, ["bad-op:issue-template"])
+    | .ok tj =>
+      let u := parseCred tj
+      let t : Template := { ctx := jStrs j "templateCtx", types := jStrs j "templateTypes", issuer := u.issuer, expires := u.expires,
+                            subjects := u.subjects, shapeOK := u.shapeOK, claims := u.claims }
+      let st' := { st with asOf := jInt j "asOf" }
+      let E := envOf st' j
+      let P := cryptoOf [] []
+      let r := issue P E (fun _ _ => "sig") (fun _ => jBool j "allDefined") (fun _ => "raw") (parseFormat (jStr j "fmt")) t "u" (jInt j "now")
+      (st, [match r with | .ok _ => "ok" | .err e => "err:" ++ e | .panic _ => "panic"])
+    | _ => (st, ["bad-op:issue"])
   | "vc" =>
     match j.getObjVal? "doc" with
     | .ok .null => (st, ["unparseable"])
